@@ -767,6 +767,18 @@ func main() {
 				if j >= total {
 					break
 				}
+				// a step with very many sync boundaries (only a defective tree produces that): the first 16, the last 16 and
+				// every (total/16)-th in between — the evidence then says "not exhaustive"
+				if total > 48 && j >= 15 && j < total-16 {
+					step := total / 16
+					if step < 1 {
+						step = 1
+					}
+					j += step - 1
+					if j >= total-16 {
+						j = total - 17
+					}
+				}
 			}
 		}
 	}
